@@ -193,9 +193,14 @@ func RunC01(c *Ctx) {
 func isAllSpace(s string) bool {
 	for i := 0; i < len(s); i++ {
 		ch := s[i]
-		if !(ch == ' ' || (ch >= 9 && ch <= 13)) {
-			return false
+		if ch == ' ' || (ch >= 9 && ch <= 13) {
+			continue
 		}
+		if n := reflex.UniWS(s[i:]); n > 0 {
+			i += n - 1
+			continue
+		}
+		return false
 	}
 	return true
 }
@@ -396,6 +401,15 @@ func RunC12(c *Ctx) {
 		}
 		one(s)
 	}
+	// every Unicode whitespace character (and its neighbours, which are not whitespace) around a top-level ';'
+	if c.Shard == 0 {
+		for _, cp := range []rune{0x85, 0xA0, 0xA1, 0x1680, 0x1681, 0x180E, 0x1FFF, 0x2000, 0x2001, 0x2002, 0x2003, 0x2004, 0x2005, 0x2006, 0x2007, 0x2008, 0x2009, 0x200A, 0x200B, 0x2027, 0x2028, 0x2029, 0x202A, 0x202F, 0x2030, 0x205E, 0x205F, 0x2060, 0x2FFF, 0x3000, 0x3001, 0xFEFF} {
+			x := string(cp)
+			for _, f := range []string{"SELECT 1;%sSELECT 2", "a%s;%sb", "%s;", ";%s", "a%sb;c", "a;%s%s;b", "a ;%s --c\n%s b", "'%s;';%sx", "a/*%s;*/%s;b%s"} {
+				one(strings.ReplaceAll(f, "%s", x))
+			}
+		}
+	}
 	for _, s := range []string{"", ";", ";;", " ; ", "a", "a;", ";a", "a;b", "a;;b", "/*c*/", ";/*c*/", "/*c*/;", "a;/*c*/b", "a; --c\nb", "a;--c", "'a;b'", "`;`", "\"\"\";\n;\"\"\";", "r';';", "a/*;*/b", "a--;\nb", "a#;\n;b"} {
 		one(s)
 	}
@@ -557,4 +571,5 @@ func RunC11(c *Ctx) {
 		idx++
 	}
 	_ = rand.IntN
+	c11LongLists(c, idx)
 }
